@@ -475,11 +475,33 @@ func (w *world) checkLocksFree() {
 	if _, ok := nfsv4prog.VerifStateCounts(w.prog); !ok {
 		w.lockLeak("the lock of the NFSv4.1 program or of a client incarnation without a request in flight is still held at quiescence: a request returned without releasing it (VerifStateCounts could not acquire it)")
 	}
+	w.checkClientLocksFree()
 	if _, ok := w.pool.VerifUseCount(); !ok {
 		w.lockLeak("the lock of the opened files pool or the byte-range lock table lock of an opened file is still held at quiescence: a request returned without releasing it")
 	}
 	if !w.nfsAlloc.VerifNFSHandlePoolLockIsFree() {
 		w.lockLeak("the lock of the NFS handle pool is still held at quiescence: a call returned without releasing it")
+	}
+}
+
+// checkClientLocksFree: the lock of every client incarnation, including
+// those that have requests in flight. At quiescence every request of the
+// case has returned, waits for the original of which it is a duplicate
+// (outside of all locks), or is parked by the harness inside
+// VirtualRead/VirtualWrite or around VirtualOpenChild, all of which the
+// program calls without holding a client incarnation's lock. So a lock
+// that cannot be acquired was leaked by an operation that has returned.
+func (w *world) checkClientLocksFree() {
+	if !nfsv4prog.VerifClientLocksFree(w.prog) {
+		w.mu.Lock()
+		var parked []string
+		for _, p := range w.parks {
+			if !p.released {
+				parked = append(parked, fmt.Sprintf("#%d at %s", p.c.id, p.kind))
+			}
+		}
+		w.mu.Unlock()
+		w.lockLeak("the lock of a client incarnation (or of the NFSv4.1 program) is still held at quiescence although no request is executing inside the program (parked by the harness outside of all program locks: %v): an operation returned without releasing it (VerifClientLocksFree)", parked)
 	}
 }
 
@@ -735,6 +757,7 @@ func (w *world) checkCounts() {
 	if !ok {
 		w.lockLeak("the lock of the NFSv4.1 program or of a client incarnation without a request in flight is still held at quiescence: a request returned without releasing it (VerifStateCounts could not acquire it)")
 	}
+	w.checkClientLocksFree()
 	exp := w.modelCounts()
 	for _, k := range []string{"clients", "client_incarnations", "sessions", "hold_count", "idle_client_incarnations", "open_owners", "open_owner_files", "lock_owner_files"} {
 		if got[k] != exp[k] {
